@@ -4,6 +4,7 @@ from . import common as C
 from . import worker as W
 from . import net as NET
 from . import xfer as X
+from . import interop as IO
 import random, shutil, time
 
 
@@ -30,6 +31,9 @@ def c07(res):
 
 
 def c04(res):
+    # conformant peer + faulty network: the two workers of the specification against each other
+    for name in (["MC_ClosedQuick"] if res.tier == "quick" else ["MC_ClosedFull", "MC_ClosedDeep"]):
+        W.model_check(res, name, module="MC_TransferClosed")
     worker_families(res, ["MC_SendCoreQuick", "MC_RecvCoreQuick"], ["MC_SendCoreFull", "MC_RecvCoreFull"])
 
 
@@ -51,6 +55,7 @@ def c15(res):
 
 
 def c16(res):
+    W.model_check(res, "MC_ClosedDup", module="MC_TransferClosed")
     worker_families(res, ["MC_SendDup", "MC_RecvDup"], ["MC_SendDup", "MC_RecvDup"])
 
 
@@ -568,6 +573,193 @@ def c13_second_clause(res):
             res.add_violation("dead|" + cname, "server died during upload histories", {"kind": "upload-history", "config": cname})
 
 
+BOUNDARY_VALUES = ["0", "1", "7", "8", "65464", "65465", "65536", "2147483648", "4294967296",
+                   "9223372036854775808", "18446744073709551615", "18446744073709551616", "-1", "x", "", "+8", "08"]
+OPT_NAMES = [b"blksize", b"BLKSIZE", b"BlkSize", b"timeout", b"TimeOut", b"tsize", b"TSIZE", b"windowsize",
+             b"WindowSize", b"unknown", b"blksiz", b""]
+NAME_POOL = [b"b", b"a/a", b"a/b", b"zz", b"../b", b"a/../../b", b"/b", b"\\b", b"a", b"", b".", b"x" * 300,
+             b"new1", b"sub/new", b"\xff\xfe", b"caf\xc3\xa9", b"b\x00x", b"a//a", b"./b", b"b/", b"..."]
+
+
+def fuzz_datagram(rng):
+    """structure-aware generator: raw bytes, valid packets, and mutations of valid packets"""
+    kind = rng.random()
+    if kind < 0.15:
+        n = rng.choice([0, 1, 2, 3, 4, 5, 8, 16, 40])
+        b = bytes(rng.randrange(256) for _ in range(n))
+        if n >= 2 and rng.random() < 0.6:
+            b = bytes([0, rng.randrange(0, 9)]) + b[2:]
+        return b
+    if kind < 0.75:
+        op = rng.choice([1, 1, 2, 2, 1, 2, 0, 7])
+        name = rng.choice(NAME_POOL) if rng.random() < 0.8 else bytes(rng.choice(b"ab./\\ %-_\x7f\xc3\xa9") for _ in range(rng.randrange(0, 12)))
+        name = name.replace(b"\0", b"") if rng.random() < 0.9 else name
+        opts = []
+        for _ in range(rng.choice([0, 0, 1, 1, 2, 3, 4])):
+            opts.append((rng.choice(OPT_NAMES), rng.choice(BOUNDARY_VALUES).encode()))
+        b = NET.rq(op, name, opts, mode=rng.choice([b"octet", b"netascii", b"OCTET", b"", b"mail"]))
+    else:
+        b = rng.choice([NET.ack(rng.randrange(65536)), NET.data(rng.randrange(65536), bytes(rng.randrange(256) for _ in range(rng.choice([0, 1, 8, 512])))),
+                        NET.error(rng.randrange(0, 10), b"m"), b"\0\6blksize\0" + rng.choice(BOUNDARY_VALUES).encode() + b"\0"])
+    m = rng.random()
+    if m < 0.45:
+        return b
+    if m < 0.6:
+        return b[:rng.randrange(len(b) + 1)]
+    if m < 0.75 and b:
+        i = rng.randrange(len(b))
+        return b[:i] + bytes([rng.randrange(256)]) + b[i + 1:]
+    if m < 0.85 and b:
+        i = rng.randrange(len(b))
+        return b[:i] + b"\0" + b[i:]
+    if m < 0.93 and b:
+        i, j = sorted((rng.randrange(len(b)), rng.randrange(len(b))))
+        return b[:j] + b[i:j] + b[j:]
+    return b.rstrip(b"\0")
+
+
+def c05(res):
+    """Structure-aware fuzzing of the real listener process; every datagram's reaction is predicted
+    by Requests.tla from Codec.Decode of the recorded bytes; liveness probes in between."""
+    q = res.tier == "quick"
+    rng = random.Random(C.seed())
+    for name in ["MC_Server_Iso", "MC_Server_ReadOnly"]:
+        W.model_check(res, name, module="MC_Server")
+    configs = [dict(shared=True, single=False, ro=False, ow=False), dict(shared=True, single=True, ro=False, ow=False),
+               dict(shared=False, single=False, ro=True, ow=False), dict(shared=True, single=True, ro=True, ow=True)]
+    n_per = 350 if q else 6000
+    vectors = []
+    for i in range(n_per):
+        vectors.append({"b": list(fuzz_datagram(rng)), "probe": False})
+        if i % 40 == 39:
+            vectors.append({"b": list(NET.rq(1, b"b")), "probe": True})
+    vectors.append({"b": list(NET.rq(1, b"b")), "probe": True})
+
+    def reqs(v):
+        return [bytes(v["b"])]
+    C.build_bins()
+    events = record_requests(vectors, reqs, "fuzz", configs)
+    # mark probes (record_requests numbers requests 1.. per config in vector order)
+    k = 0
+    per = len(vectors)
+    for ev in events:
+        if ev.get("e") == "req":
+            ev["probe"] = bool(vectors[(ev["sid"] - 1) % per]["probe"])
+    probe = C.Result(res.prop, res.tier)
+    devs = judge_net_trace(probe, events, "fuzz")
+    if devs:
+        bad = set()
+        seen = {}
+        for (ln, label) in devs:
+            ev = events[ln - 1]
+            if "sid" in ev and seen.get(label, 0) < 8:
+                seen[label] = seen.get(label, 0) + 1
+                bad.add(ev["sid"])
+        events2 = record_requests(vectors, reqs, "fuzz-retry", configs, only=bad, patient=True)
+        for ev in events2:
+            if ev.get("e") == "req":
+                ev["probe"] = bool(vectors[(ev["sid"] - 1) % per]["probe"])
+        res.legs.append({"family": "fuzz", "first_pass_deviations": len(devs), "retried": len(bad)})
+        res.traces += sum(1 for e in events if e.get("e") == "req")
+        judge_net_trace(res, events2, "fuzz-retry")
+    else:
+        res.traces += probe.traces
+        res.events += probe.events
+        res.legs += probe.legs
+        res.samples += probe.samples[:2]
+    res.extra["fuzz_datagrams_per_config"] = n_per
+    res.assumptions += ["resource exhaustion by sheer volume (threads, descriptors) is out of scope",
+                        "datagrams longer than the 516-byte request buffer are judged on the truncated bytes"]
+
+
+def c14(res):
+    """tftpc <-> tftpd: design check on the composition of the two workers (TransferClosed), then
+    real runs through a recording proxy; both workers' traces judged by Trace_Transfer, final
+    states by Trace_Interop."""
+    q = res.tier == "quick"
+    rng = random.Random(C.seed())
+    W.model_check(res, "MC_ClosedNoFault", module="MC_TransferClosed")
+    W.model_check(res, "MC_ClosedQuick" if q else "MC_ClosedFull", module="MC_TransferClosed")
+    C.build_bins()
+    grid = []
+    blks = [8, 512, 1468] if q else [8, 9, 512, 1468, 65464]
+    wins = [1, 2, 7, 64] if q else [1, 2, 3, 7, 64, 512]
+    for direction in ("download", "upload"):
+        for blk in blks:
+            for w in wins:
+                for (nb, lastkind) in ([(1, 0), (1, 1), (2, 0), (3, 1), (8, 1)] if q else
+                                       [(1, 0), (1, 1), (2, 0), (2, 1), (3, 1), (4, 0), (7, 1), (8, 1), (9, 0), (65, 1)]):
+                    grid.append((direction, blk, w, nb, lastkind))
+    rng.shuffle(grid)
+    grid = grid[:28 if q else 400]
+    xfer_events, finals = [], []
+    for single in (False, True):
+        sb, srv = with_server("interop-%s" % ("s" if single else "m"), shared=True, single=single, ow=True)
+        work = os.path.join(os.path.dirname(sb.base), "client")
+        try:
+            for k, (direction, blk, w, nb, lastkind) in enumerate(grid):
+                if k % 2 != (1 if single else 0) and q:
+                    continue
+                last = 0 if lastkind == 0 else (blk - 1 if blk > 8 else 5)
+                content = X.make_file(nb, blk, last)
+                name = "io_%d.bin" % k
+                if direction == "download":
+                    with open(os.path.join(sb.send, name), "wb") as f:
+                        f.write(content)
+                tmo = rng.choice([1, 5, 255])
+                se, ce, fin = IO.one_run(srv, sb, work, direction, name, content, blk, w, tmo,
+                                         "%s-%s-b%d-w%d-n%d" % ("s" if single else "m", direction, blk, w, nb))
+                xfer_events += se + ce
+                finals.append(fin)
+            # path conventions and refusals
+            nested = X.make_file(3, 512, 100)
+            os.makedirs(os.path.join(sb.send, "dir", "sub"), exist_ok=True)
+            open(os.path.join(sb.send, "dir", "sub", "nested.bin"), "wb").write(nested)
+            for remote in ("dir/sub/nested.bin", "dir\\sub\\nested.bin", "/dir/sub/nested.bin"):
+                se, ce, fin = IO.one_run(srv, sb, work, "download", remote, nested, 512, 1, 5, "nested:" + remote)
+                xfer_events += se + ce
+                finals.append(fin)
+            for remote, kind in (("missing.bin", "download"), ("../outside.txt", "download")):
+                se, ce, fin = IO.one_run(srv, sb, work, kind, remote, b"", 512, 1, 5, "refusal:" + remote, expect_refusal=True)
+                finals.append(fin)
+            alive = srv.alive()
+        finally:
+            drop_server(sb, srv)
+        if not alive:
+            res.add_violation("dead|interop", "server died during interop runs", {"kind": "interop"})
+    # refusals that depend on server policy: read-only, no-overwrite
+    for flags, remote, direction, pre in ((dict(ro=True), "up.bin", "upload", None), (dict(ow=False), "b", "upload", None)):
+        sb, srv = with_server("interop-pol", shared=True, **flags)
+        work = os.path.join(os.path.dirname(sb.base), "client")
+        try:
+            se, ce, fin = IO.one_run(srv, sb, work, direction, remote, b"new content", 512, 1, 5,
+                                     "refusal:%s:%s" % (sorted(flags), remote), expect_refusal=True)
+            finals.append(fin)
+        finally:
+            drop_server(sb, srv)
+    if not q:
+        # IPv6 loopback, long transfers across the block-number wrap, very large windows
+        sb, srv = with_server("interop-big", shared=True, ow=True)
+        work = os.path.join(os.path.dirname(sb.base), "client")
+        try:
+            for direction in ("download", "upload"):
+                for (nb, w) in ((65537, 64), (65540, 1000), (700, 65535)):
+                    content = X.make_file(nb, 8, 5)
+                    name = "big_%d_%d.bin" % (nb, w)
+                    if direction == "download":
+                        open(os.path.join(sb.send, name), "wb").write(content)
+                    se, ce, fin = IO.one_run(srv, sb, work, direction, name, content, 8, w, 1, "big-%s-%d-%d" % (direction, nb, w))
+                    xfer_events += se + ce
+                    finals.append(fin)
+        finally:
+            drop_server(sb, srv)
+    judge_transfers(res, xfer_events, "interop-wire")
+    judge_net_trace(res, finals, "interop-final", module="Trace_Interop", sample_kind="final")
+    res.extra["runs"] = len(finals)
+    res.assumptions += ["wire traces are taken at a proxy between the two processes; without injected loss the protocol is lock-step, so the proxy's order is each worker's order",
+                        "the client's exit status is always 0; 'reports the error' is read from its stderr/stdout"]
+
+
 def c17(res):
     fams = ["MC_Cli_STokQuick", "MC_Cli_SItemQuick", "MC_Cli_CTokQuick", "MC_Cli_CItemQuick"] if res.tier == "quick" \
         else ["MC_Cli_STokFull", "MC_Cli_SItemFull", "MC_Cli_CTokFull", "MC_Cli_CItemFull"]
@@ -587,7 +779,7 @@ def c18(res):
                         "fill() after end of file yields further empty pieces (recorded behaviour; the property constrains the bytes handed out)"]
 
 
-CHECKS = {"C12": c12, "C03": c03, "C06": c06, "C09": c09_first_reply, "C17": c17, "C10": codec, "C11": codec, "C18": c18, "C01": c01, "C02": c02, "C04": c04, "C07": c07, "C08": c08, "C13": c13, "C15": c15, "C16": c16}
+CHECKS = {"C14": c14, "C05": c05, "C12": c12, "C03": c03, "C06": c06, "C09": c09_first_reply, "C17": c17, "C10": codec, "C11": codec, "C18": c18, "C01": c01, "C02": c02, "C04": c04, "C07": c07, "C08": c08, "C13": c13, "C15": c15, "C16": c16}
 
 
 QUICK_FAMILIES = [
@@ -595,6 +787,9 @@ QUICK_FAMILIES = [
                          "MC_SendWrapSmall", "MC_RecvWrapSmall", "MC_SendWrapReal", "MC_RecvWrapReal",
                          "MC_SendDup", "MC_RecvDup"]),
     ("MC_Window", ["MC_Window_ReadersQuick", "MC_Window_MixedQuick"]),
+    ("MC_TransferClosed", ["MC_ClosedQuick", "MC_ClosedDup", "MC_ClosedNoFault"]),
+    ("MC_Server", ["MC_Server_Iso", "MC_Server_NoOverwrite", "MC_Server_ReadOnly"]),
+    ("MC_Requests", ["MC_Requests_NamesQuick", "MC_Requests_Opts1", "MC_Requests_OptsQuick"]),
     ("MC_Codec", ["MC_Codec_BytesQuick", "MC_Codec_DeepQuick", "MC_Codec_Prefix", "MC_Codec_PacketsQuick"]),
     ("MC_Cli", ["MC_Cli_STokQuick", "MC_Cli_SItemQuick", "MC_Cli_CTokQuick", "MC_Cli_CItemQuick"]),
 ]
@@ -604,6 +799,7 @@ def setup():
     """Builds the harness and pre-generates (model-checks) every configuration the quick tier
     uses; generation is cached by the hash of spec/, which does not change when /repo does."""
     C.build_harness(("wsim", "pure"))
+    C.build_bins()
     for module, fams in QUICK_FAMILIES:
         for f in fams:
             meta, _ = W.generate(f, module=module)
